@@ -485,15 +485,15 @@ func construct(family string, byteSize int, shortcut bool, goArgs []any) (it sec
 }
 
 func TestC16Constructors(t *testing.T) {
-	ev.Rule("argument lists of 0-6 values over every Go integer/float type, bool, numeric strings in base 10/16/8 (in range, beyond the width, beyond 64 bits), garbage strings, slices of each, nil, typed nil pointers, named types, structs, channels, maps, funcs x byte sizes {valid, -1,0,3,5,16} x shortcut/full constructor. Oracle: a table-driven model of the documented constructor contract (exact values in order; out-of-width -> nearest bound; documented refusals -> Error()!=nil; never a panic, never a wrapped value), and for errored items: never Equal to anything, refused by NewDataMessage / NewDataMessageFromHeader / Derive().WithItem().Build() also when nested 1-5 lists deep. Non-trivial: at least one argument is out of range, unsupported, or a string; distinct by the argument list.")
+	ev.Rule("argument lists of 0-6 values over every Go integer/float type, bool, numeric strings in base 10/16/8 (in range, beyond the width, beyond 64 bits), garbage strings, slices of each, nil, typed nil pointers, named types, structs, channels, maps, funcs x byte sizes {valid, -1,0,3,5,16, negative valid widths, MaxInt/MinInt, and sizes congruent to a valid width modulo 2^8, 2^16 and 2^32} x shortcut/full constructor. Oracle: a table-driven model of the documented constructor contract (exact values in order; out-of-width -> nearest bound; documented refusals -> Error()!=nil; never a panic, never a wrapped value), and for errored items: never Equal to anything, refused by NewDataMessage / NewDataMessageFromHeader / Derive().WithItem().Build() also when nested 1-5 lists deep. Non-trivial: at least one argument is out of range, unsupported, or a string; distinct by the argument list.")
 	vt.Check(t, 40000, 1000000, func(rt *rapid.T) {
 		family := rapid.SampledFrom([]string{"int", "int", "uint", "uint", "float", "float", "binary", "boolean"}).Draw(rt, "family")
 		var byteSize int
 		switch family {
 		case "int", "uint":
-			byteSize = rapid.SampledFrom([]int{1, 2, 4, 8, 1, 2, 4, 8, 1, 2, 4, 8, -1, 0, 3, 5, 16}).Draw(rt, "bytesize")
+			byteSize = rapid.SampledFrom([]int{1, 2, 4, 8, 1, 2, 4, 8, 1, 2, 4, 8, 1, 2, 4, 8, -1, 0, 3, 5, 16, 256 + 1, 1<<16 + 2, 1<<32 + 1, 1<<32 + 4, 2<<32 + 8, 8 - 1<<32, -4, -8, math.MaxInt, math.MinInt}).Draw(rt, "bytesize")
 		case "float":
-			byteSize = rapid.SampledFrom([]int{4, 8, 4, 8, 4, 8, 4, 8, -1, 0, 1, 2, 3, 16}).Draw(rt, "bytesize")
+			byteSize = rapid.SampledFrom([]int{4, 8, 4, 8, 4, 8, 4, 8, 4, 8, 4, 8, -1, 0, 1, 2, 3, 16, 256 + 4, 1<<16 + 8, 1<<32 + 4, 1<<32 + 8, 3<<32 + 4, 4 - 1<<32, 8 - 2<<32, -4, -8, math.MaxInt, math.MinInt}).Draw(rt, "bytesize")
 		}
 		nargs := rapid.IntRange(0, 6).Draw(rt, "nargs")
 		args := make([]arg, nargs)
